@@ -46,7 +46,7 @@ def gen_cfg(rng, exact: bool, neutral_ok: bool = True) -> dict:
         'shift_origin': (rng.choice(dy), rng.choice(dy)) if exact else (round(rng.uniform(-3, 3), 3), round(rng.uniform(-3, 3), 3)),
         'flip_x': rng.random() < 0.5,
         'flip_y': rng.random() < 0.5,
-        'short_pause': rng.choice([0.25, 0.125, 0.5, 0.0, None, -0.25] if exact else [0.05, 0.1, 0.3, 0.0, None, -0.7]),
+        'short_pause': rng.choice([0.25, 0.125, 0.5, 0.0, None, -0.25, 0.0625] if exact else [0.05, 0.1, 0.3, 0.0, None, -0.7, 0.0125]),
         'long_pause': rng.choice([0.5, 1.0, 0.25, 0.0, None, -0.5] if exact else [0.5, 0.3, 1.1, 0.0, None, -0.2]),
         'speed_pos': rng.choice([5.0, 0.5, 20.0, 2.5]),
         'output_digits': rng.choice([6, 6, 6, 3, 4, 8]),
@@ -91,7 +91,7 @@ def f32(v) -> float:
     return float(np.float32(v))
 
 
-def gen_matrix(rng, exact: bool, closed: bool = True, max_pts: int = 40, digits: int | None = None) -> list[list[float]]:
+def gen_matrix(rng, exact: bool, closed: bool = True, max_pts: int = 40, digits: int | None = None, near_zero: bool = False) -> list[list[float]]:
     """Well-formed matrix (rows [x,y,z,f,s]): first point closed, s in {0,1}, feeds positive; consecutive rows either
     identical in position or clearly apart; includes shutter toggles that coincide with a displacement, feed-only changes,
     closed moves in the middle, returns to the point before the last one (A, B, A).  Returned as a list of rows of float32-representable floats."""
@@ -109,6 +109,13 @@ def gen_matrix(rng, exact: bool, closed: bool = True, max_pts: int = 40, digits:
         u = 10.0 ** -min(digits, 4)
         step = [0.0, 2 * u, 3.1 * u, 10 * u, -4 * u]
         zstep = [0.0, 5 * u, -10 * u]
+    if exact and near_zero and digits is not None and rng.random() < 0.15:
+        # (only without an origin shift: the float32 subtraction of a shift swallows such small values, legitimately)
+        # around zero, in steps just below one unit of the last printed digit (dyadic, so that the exact regime applies): 0.98 of a
+        # unit rounds to one unit, 0.49 to zero, sign included
+        u = 2.0 ** -{3: 10, 4: 14, 6: 20, 8: 27}.get(digits, 20)
+        x, y, z = (rng.choice([0.0, u, -u]) for _ in range(3))
+        step = zstep = [0.0, u, -u, u / 2, 2 * u, -3 * u]
     s = 0.0
     rows = [[x, y, z, rng.choice(feeds), 0.0]]
     for i in range(1, n):
@@ -216,7 +223,8 @@ NAMES = ['sub1.pgm', 'dir/sub2.pgm', 'wall_01.pgm', 'mzi_0.5.pgm', 'mzi_0.7.pgm'
 def gen_ops(rng, exact: bool, depth: int, budget: list[int], declared: list[str], p_raise: float, in_body: bool = False) -> list[dict]:
     ops = []
     n = rng.randint(0 if in_body else 1, 6)
-    pauses = [0.5, 0.25, 1.0, 0.0, None, -0.125, 2.0] if exact else [0.3, 0.1, 1.7, 0.0, None, -0.45]
+    # some pauses have more decimals than a coarse output_digits setting prints for coordinates (a pause is printed in full)
+    pauses = [0.5, 0.25, 1.0, 0.0, None, -0.125, 2.0, 0.0625, 0.03125] if exact else [0.3, 0.1, 1.7, 0.0, None, -0.45, 0.3333, 0.0004, 0.025]
     for _ in range(n):
         if budget[0] <= 0:
             break
